@@ -3067,6 +3067,10 @@ class _Simu(_IObserver, _params.Updatable, ABC):
 
         self.__Bc_Dirichlet.append(new_Bc)
 
+        if len(self.__Bc_Lagrange) > 0:
+            # the system with Lagrange multipliers is sized with the number of constrained dofs
+            self.Need_Update()
+
         tic.Tac("Boundary Conditions", "Add Dirichlet condition", self._verbosity)
 
     # Functions to create links between degrees of freedom
